@@ -93,7 +93,12 @@ class IsoTpStateMachine:
 
             expected_segment_idx = (self._telegram_last_rx_fragment_idx[telegram_idx] + 1) % 16
             telegram_data = self._telegram_data[telegram_idx]
-            assert isinstance(telegram_data, bytearray)
+            if telegram_data is None:
+                # consecutive frame without a preceding first frame,
+                # e.g., because we started to listen in the middle of
+                # a transfer. there is nothing this can be appended to
+                self.on_consecutive_frame(telegram_idx, rx_segment_idx, data[1:])
+                return
 
             n = -1
             if expected_segment_idx == rx_segment_idx:
